@@ -67,7 +67,7 @@ def gen(ctx, what, sink, handlers, ops, reqs, full, timeout=900, codes=None, chu
     return True
 
 
-def share(ctx, src, dst, keep, boost=1.0, need=None):
+def share(ctx, src, dst, keep, boost=1.0, need=None, pred=None):
     """content-selected seeded share of a behaviour file (TLC's output order is not deterministic);
     behaviours in which some handler may be compressed are `boost` times as likely to be kept"""
     n = 0
@@ -75,6 +75,8 @@ def share(ctx, src, dst, keep, boost=1.0, need=None):
     with open(src) as fh, open(dst, "a") as out:
         for line in fh:
             if need and need not in line:
+                continue
+            if pred and not pred(line):
                 continue
             k = keep * (boost if '"mode":"gzip"' in line else 1.0)
             if k < 1.0:
@@ -145,16 +147,22 @@ def run(ctx):
     if ctx.thorough:
         runs = (("pool-4ops", "MCTwo", 4, "MCReqsMid", 1500), ("pool-3handlers", "MCThree", 2, "MCReqsSmall", 900))
     else:
-        runs = (("pool-4ops", "MCTwo", 4, "MCReqsSmall", 200), ("pool-2ops", "MCTwo", 2, "MCReqsPair", 200))
+        runs = (("pool-4ops", "MCTwo", 4, "MCReqsSmall", 200),)
     for what, hs, ops, reqs, to in runs:
         if not mc(ctx, what, hs, ops, reqs, to):
             return
-    # informational WriteHeader(1xx) calls before / after the final header, two handlers over the pool
-    if not mc(ctx, "informational", "MCTwo", ctx.pick(2, 3), "MCReqsInfoPair", ctx.pick(200, 900), codes="MCCodesInfoSmall"):
-        return
-    # streamed responses: Flush between chunks / before the first one, under both permitted readings
-    for fl in (True, False):
-        if not mc(ctx, "flush-%s" % ("through" if fl else "noop"), "MCTwo", ctx.pick(2, 3), "MCReqsSmall", ctx.pick(200, 900), flush=fl):
+    # informational WriteHeader(1xx) calls before / after the final header, and streamed responses (Flush
+    # between chunks / before the first one) under both permitted readings of Flush; two handlers over the pool
+    if ctx.thorough:
+        if not mc(ctx, "informational", "MCTwo", 3, "MCReqsInfoPair", 900, codes="MCCodesInfoSmall"):
+            return
+        for fl in (True, False):
+            if not mc(ctx, "flush-%s" % ("through" if fl else "noop"), "MCTwo", 3, "MCReqsPair", 900, flush=fl):
+                return
+    else:
+        if not mc(ctx, "informational+flush-noop", "MCTwo", 2, "MCReqsInfoPair", 200, codes="MCCodesInfoSmall", flush=False):
+            return
+        if not mc(ctx, "flush-through", "MCTwo", 2, "MCReqsPair", 200, flush=True):
             return
     bad = ctx.tlc("Gzip_MC", cfg_text=cfg("Spec", "MCTwo", 2, "MCReqsSmall", bad=True, inv=True), workers=4, timeout=200)
     if bad.error or bad.timed_out or bad.violated not in ("NoSharedWriter", "ContentIntact", "NoCrossTalk"):
@@ -174,7 +182,7 @@ def run(ctx):
     if not gen(ctx, "informational", info, "MCOne", ctx.pick(3, 4), "MCReqsInfo", False, codes="MCCodesInfo"):
         return
     info2 = os.path.join(ctx.tmp, "c17.info2")
-    if not gen(ctx, "informational-two-handlers", info2, "MCTwo", 2, "MCReqsInfoPair", False, codes="MCCodesInfoSmall"):
+    if not gen(ctx, "two-handlers-1xx-flush", info2, "MCTwo", 2, "MCReqsInfoPair", False, codes="MCCodesInfoSmall", flush=False):
         return
     aef = os.path.join(ctx.tmp, "c17.ae")
     if not gen(ctx, "accept-encoding", aef, "MCOne", ctx.pick(2, 3), "MCReqsAE", False, codes="MCCodesFlush", chunks=MCCHUNKS2):
@@ -182,17 +190,13 @@ def run(ctx):
     flf = os.path.join(ctx.tmp, "c17.flush")
     if not gen(ctx, "flush", flf, "MCOne", ctx.pick(3, 4), "MCReqsFlush", False, codes="MCCodesFlush", flush=False):
         return
-    flf2 = os.path.join(ctx.tmp, "c17.flush2")
-    if not gen(ctx, "flush-two-handlers", flf2, "MCTwo", 2, "MCReqsSmall", False, flush=False):
-        return
     behs = os.path.join(ctx.tmp, "c17.behs")
     n1 = share(ctx, one, behs, ctx.pick(0.04, 0.12), boost=4.0)
     n2 = share(ctx, two, behs, ctx.pick(0.03, 0.06), boost=2.0)
     n3 = share(ctx, info, behs, ctx.pick(0.12, 0.15), boost=2.0, need='"code":10')
-    n2 += share(ctx, info2, behs, ctx.pick(0.05, 0.3), boost=2.0, need='"code":10')
+    n2 += share(ctx, info2, behs, ctx.pick(0.04, 0.2), boost=2.0, pred=lambda l: '"code":10' in l or '"ev":"fl"' in l)
     n4 = share(ctx, aef, behs, ctx.pick(0.5, 1.0))
     n4 += share(ctx, flf, behs, ctx.pick(0.06, 0.12), boost=3.0, need='"ev":"fl"')
-    n2 += share(ctx, flf2, behs, ctx.pick(0.15, 0.5), boost=2.0, need='"ev":"fl"')
 
     # 3. replay against the real handler, concurrently, under the race detector
     r = run_gzip(ctx, behs, "C17 replay", timeout=ctx.pick(400, 850))
@@ -247,6 +251,8 @@ def selftest(ctx, one):
         return
     a = json.loads(json.dumps(pick))
     a["handlers"][0]["status"] = 418 if a["handlers"][0]["status"] != 418 else 200           # wrong status
+    for alt in a["handlers"][0].get("alts", []):
+        alt["status"] = a["handlers"][0]["status"]
     b = json.loads(json.dumps(pick))
     b["handlers"][0]["modes"] = [{"mode": "plain", "ce": "", "cl": b["handlers"][0]["req"]["cl"]}]   # claims: must not be compressed
     path = os.path.join(ctx.tmp, "c17.selftest")
